@@ -2,7 +2,9 @@
 Model: spec/BitmapStr.tla, MC_BitmapStr.tla; binding: spec/TraceBitmapStr.tla, harness/hwv_bitmapstr.c
 
 Python only orchestrates: it turns TLC-emitted histories into behaviour text (histories that share a read-only prefix
-are concatenated), draws the hostile input strings from VERIF_SEED, and never judges a result."""
+are concatenated), draws the hostile input strings from VERIF_SEED, and never judges a result.
+Families of values (all computed by the model): unions of the blocks of a block map (Mode full/light), and the text-length
+ladder of each format (Mode ladder: one value per text length 0..TextMax and finite/infinite, BitmapStr!Ladder)."""
 import os, random, json
 import vlib
 
@@ -14,6 +16,10 @@ MAP_C = ([0, 4, 32, 63, 64, 96, 128, 129, 160], [3, 31, 62, 63, 95, 127, 128, 15
 MAP_D = ([0, 3, 31, 33, 64, 65, 95, 127, 128], [2, 30, 32, 63, 64, 94, 126, 127, 159])                  # odd group count, straddling
 MAP_E = ([0, 32, 60, 64, 68, 96, 124, 128, 192, 224], [31, 59, 63, 67, 95, 123, 127, 191, 223, 255])    # four words
 MAP_P = ([0, 32, 480, 512, 544, 576], [31, 479, 511, 543, 575, 639])                                      # across the 512-bit preallocation
+
+
+# ladder: every text length up to 264 (520) characters, i.e. past 64, 128, 256 (512) with some margin
+TEXTMAX = {False: 264, True: 520}
 
 
 def groups_map(nb):
@@ -29,10 +35,10 @@ def gen_module(name, m, steer):
             % (name, tla_seq(m[0]), tla_seq(m[1]), ", ".join(tla_seq(s) for s in steer)))
 
 
-def cfg(maxlen, chain, mode, sim):
+def cfg(maxlen, chain, mode, sim, textmax=0):
     inv = "TypeOK CallOK" if sim else "TypeOK Laws CallOK EmitState"
-    return ("SPECIFICATION Spec\nCONSTANTS\n  Lo <- GLo\n  Hi <- GHi\n  Steer <- GSteer\n  MaxLen = %d\n  Chain = %s\n  Mode = \"%s\"\n  SimPick = 1\n"
-            "VIEW View\nINVARIANTS %s\nCHECK_DEADLOCK FALSE\n" % (maxlen, "TRUE" if chain else "FALSE", mode, inv))
+    return ("SPECIFICATION Spec\nCONSTANTS\n  Lo <- GLo\n  Hi <- GHi\n  Steer <- GSteer\n  MaxLen = %d\n  Chain = %s\n  Mode = \"%s\"\n  TextMax = %d\n"
+            "  SimPick = 1\nVIEW View\nINVARIANTS %s\nCHECK_DEADLOCK FALSE\n" % (maxlen, "TRUE" if chain else "FALSE", mode, textmax, inv))
 
 
 def random_map(rng):
@@ -236,9 +242,9 @@ def run(ctx, replay=None):
     pool = {f: [] for f in FMTS}
     S0, S3 = [(0, 0)], [(0, 0), (3, 0), (0, 1)]
 
-    def mc(tag, m, steer, maxlen, chain, mode, simulate=None, workers=vlib.NCPU, timeout=1500):
+    def mc(tag, m, steer, maxlen, chain, mode, simulate=None, workers=vlib.NCPU, timeout=1500, textmax=0):
         for attempt in (1, 2):
-            out, st = ctx.tlc_mc("MC_BitmapStr_gen", cfg(maxlen, chain, mode, simulate is not None), tag=tag,
+            out, st = ctx.tlc_mc("MC_BitmapStr_gen", cfg(maxlen, chain, mode, simulate is not None, textmax), tag=tag,
                                  extra_modules=[("MC_BitmapStr_gen.tla", gen_module("MC_BitmapStr_gen", m, steer))],
                                  simulate=simulate, depth=(maxlen + 2) if simulate else None, timeout=timeout, workers=workers,
                                  heap="1g" if simulate else "2g")
@@ -262,6 +268,9 @@ def run(ctx, replay=None):
         jobs += [("light", "r%d" % i, random_map(rng), S3) for i in range(3)]
     else:
         jobs += [("light", "g", groups_map(10), S0), ("light", "c", MAP_C, S3), ("light", "p", MAP_P, S3)]
+    # (2b) the text-length ladder: for each format one value per (text length 0..TextMax, finite/infinite), computed by the
+    # model; set -> asprintf -> snprintf at the buffer lengths around the text length, NULL/0, reparse
+    jobs.insert(1 if thorough else 0, ("ladder", "t", groups_map(1), S0))
     # (3) simulation: free interleaving of the calls on one register (stale contents, sscanf into a used bitmap)
     jobs += [("sim", "c", MAP_C, S3), ("sim", "r", random_map(rng), S3)]
     if thorough:
@@ -272,7 +281,7 @@ def run(ctx, replay=None):
         if kind == "sim":
             # one worker: the set of simulated histories is then a function of the seed
             return mc("sim_" + tag, m, steer, 16, True, "full", simulate="num=%d" % (300 if thorough else 100), workers=1, timeout=1500)
-        return mc(kind + "_" + tag, m, steer, 3, False, kind, workers=4, timeout=3000)
+        return mc(kind + "_" + tag, m, steer, 3, False, kind, workers=4, timeout=3000, textmax=TEXTMAX[thorough] if kind == "ladder" else 0)
 
     # exhaustive runs use 4 TLC workers each (3 at a time), simulations one worker each (4 at a time)
     import concurrent.futures as cf
@@ -332,9 +341,12 @@ def run(ctx, replay=None):
     ctx.handle_rejections(rejs, behs, replay_fn)
     return ctx.finish(
         rule="behaviours = one per value of each exhaustively enumerated family (all three formats, every buffer length 0..needed+1, NULL/0, "
-             "reparse, canonical and variant strings of the documented grammars), TLC-simulated call sequences on one register, and seeded "
+             "reparse, canonical and variant strings of the documented grammars), one per value of the text-length ladder of each format "
+             "(every text length 0..%d the format can produce, finite and infinite, buffer lengths around the text length), "
+             "TLC-simulated call sequences on one register, and seeded " % TEXTMAX[thorough] +
              "hostile strings each followed by print/reparse in the three formats; each was replayed on the rebuilt ASan library and validated by TLC",
-        assumptions=["indexes stay below ~1000 for hostile list strings and below 256 in the model families",
+        assumptions=["indexes stay below ~1000 for hostile list strings and below 256 in the model families (below ~%d in the ladder)" % (4 * TEXTMAX[thorough]),
+                     "texts longer than %d characters only arise from hostile strings" % TEXTMAX[thorough],
                      "allocation failure (-1 returns of snprintf/asprintf) is not explored",
                      "out-of-bounds reads are observed by ASan in the recorder, not modelled",
                      "text equality with the canonical printer is %s" % ("decisive (HWV_C04_STRICT)" if strict else
